@@ -128,6 +128,9 @@ CASES = {
     # self-shielding tables, with blanks around the key : value separator (`naunet example` itself writes 'CO: VB88Table')
     "shielding-spaced": (lambda: base_request(files=["ice.naunet"], formats=["naunet"], elements=["H", "C", "O"], pseudo_elements=["CR"], grain_model="hh93", shielding={"CO": "VB88Table", "H2": "L96Table"}, _ice=True), ["dense"], "spaced"),
     "shielding-plain": (lambda: base_request(files=["ice.naunet"], formats=["naunet"], elements=["H", "C", "O"], pseudo_elements=["CR"], grain_model="hh93", shielding={"CO": "V09Table"}, _ice=True), ["dense"], "plain"),
+    # a grain symbol other than the default; the grains are extra species (the file readers know the default symbol only)
+    "grain-symbol": (lambda: base_request(files=["dust.naunet"], formats=["naunet"], elements=["e", "H"], pseudo_elements=["CR"], grain_symbol="DUST", allowed=["H", "H2", "H+", "e-", "DUST0", "DUST-"], extra=["DUST0", "DUST-"],
+                                          _files={"dust.naunet": "1    ,           H,           H,            ,          H2,            ,            ,            ,            , 1.000e-10, 0.000e+00, 0.000e+00,    -1.00,    -1.00, 100, unknown\n2    ,          H+,          e-,            ,           H,            ,            ,            ,            , 1.000e-10, 0.000e+00, 0.000e+00,    -1.00,    -1.00, 100, unknown\n3    ,           H,          CR,            ,          H+,          e-,            ,            ,            , 1.000e-10, 0.000e+00, 0.000e+00,    -1.00,    -1.00, 100, unknown\n"}), ["dense"], "plain"),
     "symbols": (lambda: base_request(files=["ice.naunet"], formats=["naunet"], elements=["H", "C", "O"], pseudo_elements=["CR"], grain_model="hh93", bulk_prefix="%", _ice=True), ["dense"], "plain"),
 }
 THOROUGH = {
